@@ -191,9 +191,21 @@ func c16run(c *fw.Ctx, idx int) {
 	if custom {
 		opts = append(opts, jet.WithCache(ch))
 	}
+	optNote := ""
+	if r.Intn(4) == 0 {
+		// options are applied in the order given: the last word on development mode counts
+		if dev {
+			opts = append([]jet.Option{jet.DevelopmentMode(false)}, opts...)
+			optNote = "DevelopmentMode(false) first, InDevelopmentMode() later"
+		} else {
+			opts = append(append([]jet.Option{jet.InDevelopmentMode()}, opts...), jet.DevelopmentMode(false))
+			optNote = "InDevelopmentMode() first, DevelopmentMode(false) last"
+		}
+		c.Count("sets_with_development_mode_given_twice", 1)
+	}
 	set := jet.NewSet(ld, opts...)
 	var hist []c16op
-	cfg := map[string]interface{}{"extensions": exts, "dev": dev, "custom_cache": custom}
+	cfg := map[string]interface{}{"extensions": exts, "dev": dev, "custom_cache": custom, "options": optNote}
 	c.Begin(idx, cfg)
 	defer c.End()
 	ver := 0
@@ -228,6 +240,7 @@ func c16run(c *fw.Ctx, idx int) {
 		inner.Set(p, f.content(p))
 		if f.Kind == kEmpty && m.readErr[p] {
 			ld.ReadErrAfter[p] = 0
+			delete(ld.ReadErrWithData, p)
 		}
 		hist = append(hist, c16op{Op: "SetFile", Arg: p, File: &f})
 	}
@@ -475,6 +488,10 @@ func c16run(c *fw.Ctx, idx int) {
 					ld.ReadErrAfter[p] = r.Intn(4)
 					if m.files[p].Kind == kEmpty {
 						ld.ReadErrAfter[p] = 0 // nothing to read: the fault has to strike at once to strike at all
+					} else if r.Intn(3) == 0 {
+						// the failing Read hands over some bytes together with its error and the reader reports io.EOF from then on
+						ld.ReadErrWithData[p] = 1 + r.Intn(3)
+						hist[len(hist)-1].Op = "InjectReadErrorDeliveredWithData"
 					}
 				case 2:
 					hist = append(hist, c16op{Op: "ClearFaults", Arg: p})
@@ -482,6 +499,7 @@ func c16run(c *fw.Ctx, idx int) {
 					delete(m.readErr, p)
 					delete(ld.OpenErr, p)
 					delete(ld.ReadErrAfter, p)
+					delete(ld.ReadErrWithData, p)
 				}
 				break
 			}
